@@ -157,7 +157,7 @@ def verify_unit(repo, tmpl, outdir, do_vacuity=True, drop_hints=()):
                 only_hints = False
                 break
             li = _line_info(mp, sp[0]['line_start'])
-            if li.get('o') == 'i' and li.get('sec') in ('before', 'after', 'atend', 'loopend') and li.get('fn'):
+            if li.get('o') == 'i' and li.get('sec') in ('before', 'after', 'atend', 'atstart', 'loopend') and li.get('fn'):
                 bad_fns.add(li['fn'])
             else:
                 only_hints = False
